@@ -280,15 +280,15 @@ PROPS["C04"] = {
         {"id": "WM-gates-typo", "text": "title word of n letters (>= 3 distinct, letter classes), finished query = ONE edit of it at a symbolic position "
                                         "(substitution by a different letter / insertion / deletion / adjacent transposition): the REAL length_check and "
                                         "jaccard_check both accept",
-         "bounds": "n in {5,6}, edit kind and position from the instance names / symbolic; all chars and classes symbolic",
+         "bounds": "n = 5: all four edit kinds; n = 6: deletion and transposition (substitution / insertion at n = 6 take > 35 min each); position symbolic; all chars and classes symbolic",
          "opts": {"unwind": 9, "timeout": 3000, "checks": "functional", "mem_gb": 10},
          "quick": ["wm_gtypo_5_del", "wm_gtypo_5_tr"],
-         "thorough": ["wm_gtypo_5_sub", "wm_gtypo_5_ins", "wm_gtypo_6_sub", "wm_gtypo_6_ins", "wm_gtypo_6_del", "wm_gtypo_6_tr"]},
+         "thorough": ["wm_gtypo_5_sub", "wm_gtypo_5_ins", "wm_gtypo_6_del", "wm_gtypo_6_tr"]},
         {"id": "DL-typo", "text": "for the same pairs the REAL DamerauLevenshtein::distance is at most 1, its ratio to the longer length is within the matcher's "
                                   "threshold 0.21, and the matrix cell the matcher reads for the full pair holds that distance",
-         "bounds": "n in {5,6}; all chars and (letter) classes symbolic", "opts": {"unwind": 9, "timeout": 3000, "checks": "functional", "mem_gb": 12},
-         "quick": ["wm_dtypo_5_tr"], "thorough": ["wm_dtypo_5_sub", "wm_dtypo_5_ins", "wm_dtypo_5_del", "wm_dtypo_6_sub", "wm_dtypo_6_del", "wm_dtypo_6_tr"],
-         "per_instance": {"wm_dtypo_6_sub": {"mem_gb": 24, "timeout": 3600}, "wm_dtypo_6_del": {"mem_gb": 24, "timeout": 3600}, "wm_dtypo_6_tr": {"mem_gb": 24, "timeout": 3600}}},
+         "bounds": "n = 5: substitution, deletion, transposition (insertion = 5x6 exceeds 12 GB); n = 6: deletion only (6x6 has 26 M variables); all chars and (letter) classes symbolic", "opts": {"unwind": 9, "timeout": 3000, "checks": "functional", "mem_gb": 12},
+         "quick": ["wm_dtypo_5_tr"], "thorough": ["wm_dtypo_5_sub", "wm_dtypo_5_del", "wm_dtypo_6_del"],
+         "per_instance": {"wm_dtypo_6_del": {"mem_gb": 24, "timeout": 3600}}},
     ],
 }
 
@@ -309,9 +309,8 @@ PROPS["C14"] = {
          "per_instance": {"wm_joint_2_3": {"mem_gb": 20, "timeout": 3600}, "wm_joint_3_2": {"mem_gb": 20, "timeout": 3600}}},
         {"id": "JOIN-query", "text": "a title word of n >= 3 letters, query = the word spelled as two words at split point s with one separator: pre-filters accept, "
                                      "distance <= 0.5 and within the threshold, the query-side match splits over the two query words (both parts non-empty)",
-         "bounds": "(n,s) from the instance names, n in 3..5", "opts": {"unwind": 9, "timeout": 3000, "checks": "functional", "mem_gb": 10},
-         "quick": ["wm_joinq_3_1", "wm_joinq_3_2"], "thorough": ["wm_joinq_4_1", "wm_joinq_4_2", "wm_joinq_5_2", "wm_joinq_5_3"],
-         "per_instance": {"wm_joinq_5_2": {"mem_gb": 20, "timeout": 3600}, "wm_joinq_5_3": {"mem_gb": 20, "timeout": 3600}}},
+         "bounds": "(n,s) from the instance names, n in 3..4 (n = 5: 24 M variables, > 20 GB)", "opts": {"unwind": 9, "timeout": 3000, "checks": "functional", "mem_gb": 10},
+         "quick": ["wm_joinq_3_1", "wm_joinq_3_2"], "thorough": ["wm_joinq_4_1", "wm_joinq_4_2"]},
         dict(SPLIT_SAFE, id="SPLIT-structure"),
     ],
 }
@@ -321,7 +320,7 @@ PROPS["C14"] = {
 # clear / top_ixs / TrigramIndex::add / prepare on CONCRETE one- and two-letter titles, with
 # SYMBOLIC ratings and ids; the matcher is never run.
 ST_OPTS = {"unwind": 6, "timeout": 2400, "checks": "functional", "mem_gb": 14, "sched_gb": 9}
-ST_ASSUME = ["titles are CONCRETE one-word texts (\"a\", \"b\", \"ab\", empty) built directly in the tokeniser's output format; ratings (< 2^31) and ids are symbolic",
+ST_ASSUME = ["titles are CONCRETE one-word texts (\"a\", \"b\", \"ab\", \"ba\", \"B\" (normalised \"b\"), empty) built directly in the tokeniser's output format; ratings (< 2^31) and ids are symbolic",
              "Store::records and the index's counter vector are given capacity up front (hook verif_presize): growing a vector from capacity zero inside a struct "
              "trips a Kani artefact (F13); capacities are not observable",
              "histories are the ENUMERATED operation sequences of the instance names (up to 5 operations), not all sequences"]
@@ -329,20 +328,23 @@ ST_TOP = {"id": "ST-top", "text": "real Store::top_ixs (the empty-query candidat
                                    "records, ratings non-increasing, no omitted record rated higher than a listed one, and among equal ratings an omitted record does not "
                                    "precede a listed one in code-point order of the titles",
           "bounds": "titles / limit from the instance names: 1-3 records, limit 1..3 (limit 0 with records: F13)", "opts": ST_OPTS,
-          "quick": ["st_top_a_l1", "st_top_ab_l1", "st_top_ab_l3", "st_top_ba_l1", "st_top_aba_l1", "st_top_e_a_l1"],
-          "thorough": ["st_top_aba_l2", "st_top_b_ab_a_l1", "st_top_b_ab_a_l2"]}
+          "quick": ["st_top_a_l1", "st_top_ab_l1", "st_top_ab_l3", "st_top_ba_l1", "st_top_aba_l1", "st_top_e_a_l1", "st_top_Ba_l1", "st_top_aB_l1"],
+          "thorough": ["st_top_aba_l2", "st_top_b_ab_a_l1", "st_top_b_ab_a_l2", "st_top_Bab_l2"]}
 ST_HT = {"id": "ST-top-history", "text": "after the history (add / clear / set limit / set markers / empty-query lookup, as named) the store holds exactly the records added since "
                                           "the last clear, at their positions, with the current limit, and its empty-query candidate list equals that of a store built from "
                                           "scratch with those records and that limit - in particular records added after an empty-query search show up, and a changed limit takes effect",
          "bounds": "histories of the instance names (op codes in store.rs::apply), ratings / ids symbolic", "opts": ST_OPTS,
-         "quick": ["st_ht_add", "st_ht_add_add", "st_ht_top_add", "st_ht_add_top_add", "st_ht_add_top_clear_add", "st_ht_add_add_l1_top_l2", "st_ht_add_clear_add"],
-         "thorough": ["st_ht_add_add_l2_top_l1", "st_ht_add_mark_top_add", "st_ht_add_top_top"]}
+         "quick": ["st_ht_add", "st_ht_add_add", "st_ht_top_add", "st_ht_add_top_add", "st_ht_add_top_clear_add", "st_ht_add_add_l1_top_l2", "st_ht_add_clear_add",
+                   "st_ht_l1_add_top_add", "st_ht_l1_addb_top_add"],
+         "thorough": ["st_ht_add_add_l2_top_l1", "st_ht_add_mark_top_add", "st_ht_add_top_top", "st_ht_l2_add_add_top_add"]}
 ST_HQ = {"id": "ST-query-history", "text": "after the history the index's candidate list for a one-letter query equals that of a store built from scratch, and every candidate is a "
                                             "position of a stored record - in particular after clear() nothing of the cleared records is left in the index",
          "bounds": "histories of the instance names, query \"a\" or \"b\"", "opts": dict(ST_OPTS, sched_gb=14),
-         "quick": ["st_hq_add_qa", "st_hq_add_clear_qa", "st_hq_add_clear_add_qa", "st_hq_add_clear_add_qb"],
-         "thorough": ["st_hq_add_add_qb", "st_hq_add_qa_add_qa"],
-         "per_instance": {"st_hq_add_add_qb": {"mem_gb": 24, "sched_gb": 24}, "st_hq_add_qa_add_qa": {"mem_gb": 24, "sched_gb": 24}}}
+         "quick": ["st_hq_add_qa", "st_hq_add_clear_qa", "st_hq_add_clear_add_qa", "st_hq_add_clear_add_qb", "st_hq_add_qa_adde_qb"],
+         "thorough": ["st_hq_add_add_qb", "st_hq_add_qa_add_qa", "st_hq_add_qa_addb_qb", "st_hq_addb_qb_add_qa"],
+         "per_instance": {"st_hq_add_add_qb": {"mem_gb": 24, "sched_gb": 24}, "st_hq_add_qa_add_qa": {"mem_gb": 24, "sched_gb": 24},
+                          "st_hq_add_qa_addb_qb": {"mem_gb": 24, "sched_gb": 24}, "st_hq_addb_qb_add_qa": {"mem_gb": 24, "sched_gb": 24},
+                          "st_hq_add_qa_adde_qb": {"mem_gb": 24, "sched_gb": 24}}}
 
 PROPS["C12"] = {
     "assumptions": ST_ASSUME + ["glue (DESIGN §5 C12): Store::search on an empty query scores each listed record (EMPTY-score: no matches, filter keeps it - lemma TM-structure "
@@ -350,7 +352,7 @@ PROPS["C12"] = {
                                 "rating, then fewer words, then fewer characters; highlight() adds no marker without matches"],
     "outside": "more than 3 records (4 exceed 14 GB); limit 0; separator-only query STRINGS (they become empty queries only through the tokeniser); the final "
                "LimitSort / highlight pipeline of Store::search (glued)",
-    "lemmas": [ST_TOP, dict(ST_HT, id="ST-top-current", quick=["st_ht_top_add", "st_ht_add_top_add", "st_ht_add_add_l1_top_l2"], thorough=["st_ht_add_add_l2_top_l1", "st_ht_add_top_clear_add"]),
+    "lemmas": [ST_TOP, dict(ST_HT, id="ST-top-current", quick=["st_ht_top_add", "st_ht_add_top_add", "st_ht_add_add_l1_top_l2", "st_ht_l1_add_top_add"], thorough=["st_ht_add_add_l2_top_l1", "st_ht_add_top_clear_add"]),
                dict(TM_STRUCT, id="EMPTY-score", quick=["tm_r2_q0"], thorough=[])],
 }
 PROPS["C10"] = {
